@@ -29,11 +29,13 @@ import (
 // (stream "C30rot").  All keys and certificates are generated at run time (crypto/x509, offline).
 func init() {
 	Props["C30"] = &Prop{
-		Imports:    "From Verif Require Import Gen.Facts Model.Tls Corr.C30.",
-		Gen:        genC30,
-		Corpus:     corpusC30,
-		NonTrivial: func(c *Case) bool { return c.Tags["listening_tls"] > 0 && c.Tags["handshake_ok"] > 0 && c.Tags["handshake_refused"] > 0 },
-		ShardSize:  50,
+		Imports: "From Verif Require Import Gen.Facts Model.Tls Corr.C30.",
+		Gen:     genC30,
+		Corpus:  corpusC30,
+		NonTrivial: func(c *Case) bool {
+			return c.Tags["listening_tls"] > 0 && c.Tags["handshake_ok"] > 0 && c.Tags["handshake_refused"] > 0
+		},
+		ShardSize: 50,
 	}
 	Props["C30rot"] = &Prop{
 		Imports:    "From Verif Require Import Gen.Facts Model.Tls Corr.C30rot.",
@@ -60,7 +62,9 @@ func keyPEM(k *ecdsa.PrivateKey) []byte {
 	b, _ := x509.MarshalECPrivateKey(k)
 	return pem.EncodeToMemory(&pem.Block{Type: "EC PRIVATE KEY", Bytes: b})
 }
-func certPEM(der []byte) []byte { return pem.EncodeToMemory(&pem.Block{Type: "CERTIFICATE", Bytes: der}) }
+func certPEM(der []byte) []byte {
+	return pem.EncodeToMemory(&pem.Block{Type: "CERTIFICATE", Bytes: der})
+}
 
 func mkCA(cn string, serial int64) (*x509.Certificate, *ecdsa.PrivateKey, []byte) {
 	k, _ := ecdsa.GenerateKey(elliptic.P256(), rand.Reader)
